@@ -5,6 +5,7 @@ import (
 	"verif/internal/core"
 	"verif/prop/c12"
 	"verif/prop/c16"
+	"verif/prop/c18"
 )
 
 // Prop is one decidable property.
@@ -18,4 +19,5 @@ type Prop struct {
 var All = map[string]Prop{
 	"C12": {Level: "model_checking", Check: c12.Check, Replay: c12.Replay},
 	"C16": {Level: "model_checking", Check: c16.Check, Replay: c16.Replay},
+	"C18": {Level: "model_checking", Check: c18.Check, Replay: c18.Replay},
 }
